@@ -116,11 +116,12 @@ LiteralSegs(its, f) == <<Seg("text", f.prefix \o QuoteText(f))>> \o BodySegs(its
 
 (* ---------------------------------------------------------------- second literal (implicit concatenation) *)
 Seconds == { [src |-> <<>>, parts |-> <<>>, f |-> TRUE],                                                  \* none
+             [src |-> <<Seg("text", " ''")>>, parts |-> <<>>, f |-> FALSE],                               \* an empty literal adds nothing
              [src |-> <<Seg("text", " 'x'")>>, parts |-> <<Txt("x")>>, f |-> FALSE],
              [src |-> <<Seg("text", " u\"y\"")>>, parts |-> <<Txt("y")>>, f |-> FALSE],
              [src |-> <<Seg("text", " f'{"), Seg("expr", "c"), Seg("text", "}z'")>>, parts |-> <<Fld("c", "", NoSpec), Txt("z")>>, f |-> TRUE],
              [src |-> <<Seg("text", "\n  'x{{'")>>, parts |-> <<Txt("x{{")>>, f |-> FALSE] }
-Firsts == { [src |-> <<>>, parts |-> <<>>], [src |-> <<Seg("text", "'p{q}' ")>>, parts |-> <<Txt("p{q}")>>], [src |-> <<Seg("text", "u'p' ")>>, parts |-> <<Txt("p")>>] }
+Firsts == { [src |-> <<>>, parts |-> <<>>], [src |-> <<Seg("text", "\"\" ")>>, parts |-> <<>>], [src |-> <<Seg("text", "'p{q}' ")>>, parts |-> <<Txt("p{q}")>>], [src |-> <<Seg("text", "u'p' ")>>, parts |-> <<Txt("p")>>] }
 
 (* ---------------------------------------------------------------- machine *)
 Init == body = <<>> /\ done = FALSE
